@@ -9,7 +9,7 @@ from vf.ref import rfc4511
 sl = av.sl
 LEVEL = "exploration"
 RULE = (
-    "messages from the boundary-biased generator (as C01) plus the bytes emitted by LDAPClient/LDAPServer API calls; each is "
+    "messages from the boundary-biased generator (as C01), the bytes emitted by LDAPClient/LDAPServer API calls, and forwarded messages (received in another valid BER form - C04's freedoms, also inside a paged control value - and packed again from the decoded object); each is "
     "decoded by vf/ref/rfc4511.decode_strict (exact tag class/number/PC per RFC 4511 Appendix B, definite lengths, primitive "
     "OCTET STRINGs, TRUE=0xFF, DEFAULT/absent components omitted, minimal integers, nothing after the envelope); "
     "non-trivial as C01; distinct by hash of the abstract message"
